@@ -375,6 +375,7 @@ Allowed_C12(hs, pre, e) ==
 NT_C12(hs, pre, e) ==
     \/ IsOp(e) /\ ~IsSync(hs) /\ (LostLive(hs, pre, e) # {} \/ ExpectedEvicted(hs, pre, e) # {})
     \/ PairReady(hs, e) /\ IsContest(PairHist(hs), hs.pend.pre, PairEvent(hs, e))
+    \/ PairUpdate(hs, e) /\ ExpectedAfterGrowth(PairHist(hs), hs.pend.pre, PairEvent(hs, e)) # {}
 
 -----------------------------------------------------------------------------
 (* C13  TinyLFU admission                                                    *)
